@@ -279,6 +279,12 @@ def check_property(pid, tier, seed):
         # a harmless refactoring renumbers them.  Only clauses named by the sidecar (ensures, invariants, steps, variants, frames, result types, lemmas) must
         # still be generated.
         missing = sorted(n for n in baseline if n not in set(all_names) and "/safety/" not in n and "/call#" not in n)
+        loop_only = missing and all(any(t in n for t in ("/inv", "/step", "/decreases", "/variant", "/body-reachable")) for n in missing)
+        if loop_only and not undecided:
+            # the loops the sidecar's invariants were written for are gone (e.g. a loop replaced by an array expression): whatever else was proved, the sidecar no longer
+            # matches the code - no verdict, not a checker crash
+            print(f"NO-VERDICT property={pid} loop obligations of the baseline are no longer generated (the loops they belong to are gone): {missing[:4]} ...")
+            return 2
         if missing and not undecided:
             print(f"CHECKER-FAULT obligations of the baseline are no longer generated: {missing[:5]} ...")
             return 3
